@@ -400,3 +400,73 @@ def np_mean_list(xs):
 
 def np_argmin_list(xs):
     return np.argmin(xs)
+
+
+# ---- third batch: python lists handed to numpy, as the library does
+
+def array_of_list(xs):
+    return np.array(xs)
+
+
+def asarray_sum_axis0(rows):
+    return np.sum(np.array(rows), axis=0)
+
+
+def integer_valued(x):
+    return bool(np.all(np.mod(x, 1) == 0))
+
+
+def last_as_array(t):
+    t = np.array(t)
+    return (t[-1:], len(t), t[-1])
+
+
+def ones_times(n, x):
+    return np.ones(n) * x
+
+
+def append_to_list(xs, v):
+    return np.append(xs, v)
+
+
+def unzip_rows(rows):
+    cols = list(zip(*rows))
+    return (list(cols[0]), list(cols[1]))
+
+
+def tolist_roundtrip(a):
+    return a.tolist()
+
+
+def list_times_array(xs, a):
+    return np.array(xs) * a
+
+
+def dot_list(xs, a):
+    return np.dot(xs, a)
+
+
+def mutate_list(n, k, v):
+    js = [0] * n
+    js[k] = v
+    js[0] += 1
+    return js
+
+
+def list_extend_append(xs, v):
+    out = list()
+    out.append(v)
+    out += xs
+    return out
+
+
+def nested_index(rows, i, j):
+    return rows[i][j]
+
+
+def enumerate_start(xs):
+    return [(i, x) for i, x in enumerate(xs)]
+
+
+def any_positive_rate(rates):
+    return (bool(all(rates == 0)), bool(np.all(rates == 0)), bool(np.any(rates > 0)))
